@@ -298,6 +298,80 @@ func runC15Seq(rc *runCtx) *RunResult {
 			desc = fmt.Sprintf("splice %s[:%d] + %s[%d:]", ct.name, cut, ct2.name, cut2)
 		}
 		rc.inc("fault_splice", 1)
+	case mode == 2 && ct.name == "Polygon" && len(enc) > 7 && enc[0] == 1:
+		// loop-level splice of a lossless polygon: the stream is re-assembled from the library's own
+		// encodings of the loops (Loop.Encode writes exactly what Polygon.Encode writes per loop), with
+		// loops inserted (zero-vertex, empty, full), duplicated, dropped or swapped and the declared
+		// count set to the real number or off by one. Format knowledge used: the 7-byte header.
+		p := v.(*s2.Polygon)
+		var parts [][]byte
+		total := 7
+		ok := true
+		for i := 0; i < p.NumLoops(); i++ {
+			var lb bytes.Buffer
+			if err := p.Loop(i).Encode(&lb); err != nil {
+				ok = false
+			}
+			parts = append(parts, lb.Bytes())
+			total += lb.Len()
+		}
+		if ok && total <= len(enc) {
+			tailB := enc[total:]
+			special := func(l *s2.Loop) []byte {
+				var lb bytes.Buffer
+				_ = l.Encode(&lb)
+				return lb.Bytes()
+			}
+			ne := 1 + int(t.Uint(3))
+			for e := 0; e < ne; e++ {
+				pos := int(t.Uint(uint32(len(parts) + 1)))
+				switch t.Uint(6) {
+				case 0:
+					parts = append(parts[:pos], append([][]byte{special(new(s2.Loop))}, parts[pos:]...)...)
+					desc += fmt.Sprintf("insert-zero-vertex-loop@%d ", pos)
+				case 1:
+					parts = append(parts[:pos], append([][]byte{special(s2.EmptyLoop())}, parts[pos:]...)...)
+					desc += fmt.Sprintf("insert-empty-loop@%d ", pos)
+				case 2:
+					parts = append(parts[:pos], append([][]byte{special(s2.FullLoop())}, parts[pos:]...)...)
+					desc += fmt.Sprintf("insert-full-loop@%d ", pos)
+				case 3:
+					if len(parts) > 0 {
+						src := parts[int(t.Uint(uint32(len(parts))))]
+						parts = append(parts[:pos], append([][]byte{src}, parts[pos:]...)...)
+						desc += fmt.Sprintf("duplicate-loop@%d ", pos)
+					}
+				case 4:
+					if len(parts) > 0 && pos < len(parts) {
+						parts = append(parts[:pos], parts[pos+1:]...)
+						desc += fmt.Sprintf("drop-loop@%d ", pos)
+					}
+				default:
+					if len(parts) > 1 {
+						a, b := int(t.Uint(uint32(len(parts)))), int(t.Uint(uint32(len(parts))))
+						parts[a], parts[b] = parts[b], parts[a]
+						desc += fmt.Sprintf("swap-loops %d,%d ", a, b)
+					}
+				}
+			}
+			n := len(parts)
+			switch t.Uint(5) {
+			case 0:
+				n++
+			case 1:
+				if n > 0 {
+					n--
+				}
+			}
+			data = append([]byte(nil), enc[:3]...)
+			data = append(data, byte(n), byte(n>>8), byte(n>>16), byte(n>>24))
+			for _, pb := range parts {
+				data = append(data, pb...)
+			}
+			data = append(data, tailB...)
+			desc += fmt.Sprintf("declared-loops=%d actual=%d ", n, len(parts))
+		}
+		rc.inc("fault_loop_splice", 1)
 	default:
 		nf := 1 + int(t.Uint(6))
 		for i := 0; i < nf && len(data) > 0; i++ {
